@@ -30,6 +30,7 @@ def from_emission(j):
             out.append({"fn": "repeat2", "x": X, "y": Y, "a": op["a"], "b": op["b"]})
         if op["b"] == 1 and all(r[1] == 1 for r in X):
             out.append({"fn": "repeat", "x": X, "y": Y, "r": op["a"], "container": "int"})
+            out.append({"fn": "repeat", "x": X, "y": Y, "r": op["a"], "container": "int8" if op["a"] % 2 else "uint8"})
     elif k == "truncate":
         if op["ratio"]:
             out.append({"fn": "truncate", "x": X, "y": Y, "left": R(Fraction(op["l2"], 4)), "right": R(Fraction(op["r2"], 4)), "lr": True, "rr": True})
@@ -96,6 +97,14 @@ def random_cases(family, rng, count):
         if family == "repeat":
             a, b = rng.randint(1, 12), rng.randint(1, 4)
             out.append({"fn": "repeat", "x": X, "y": Y, "r": a, "container": rng.choice(["array", "list"])})
+            if rng.random() < 0.4:
+                # integer abscissae held in a narrow integer array whose range the extension leaves (hours, sample numbers)
+                t, ix = rng.choice([0, 0, 1, 24, 100, -100, -20]), []
+                for _ in range(rng.randint(2, 12)):
+                    ix.append(t)
+                    t += rng.choice([1, 1, 2, 5, 10, 30])
+                out.append({"fn": "repeat", "x": [R(v) for v in ix], "y": [R(Fraction(rng.randint(0, 100))) for _ in ix], "r": rng.randint(2, 12),
+                            "container": rng.choice(["int8", "uint8", "int16", "int32"])})
             if a * b <= 12:
                 out.append({"fn": "repeat2", "x": X, "y": Y, "a": a, "b": b})
         elif family == "truncate":
